@@ -8,6 +8,8 @@
 From Coq Require Import ZArith Znumtheory List Bool Lia.
 From Coq Require Import ZifyBool.
 From Geo Require Import Base.GoPrim Gen.CellIDCov Model.Coverer.
+From Geo Require Import Gen.CellID.  (* s2_CellID_RangeMin *)
+From Geo Require Import Gen.CellIDFull.  (* s2_CellID_CommonAncestorLevel *)
 Import ListNotations.
 Local Open Scope Z_scope.
 
